@@ -117,6 +117,9 @@ func (c *RuleCtx) fn(name string) *ssa.Function {
 		f = c.p.resolveRenamed(name)
 	}
 	if f == nil || len(f.Blocks) == 0 {
+		f = c.p.resolveInlined(name)
+	}
+	if f == nil || len(f.Blocks) == 0 {
 		c.undecided("anchor/"+name, "-", "anchor function "+name+" resolves", "function "+name+" not found in package zap (renamed or removed): the rule cannot locate its construct")
 		return nil
 	}
@@ -127,6 +130,9 @@ func (c *RuleCtx) method(typ, name string) *ssa.Function {
 	f := c.p.Method(typ, name)
 	if f == nil || len(f.Blocks) == 0 {
 		f = c.p.resolveRenamed(typ + "." + name)
+	}
+	if f == nil || len(f.Blocks) == 0 {
+		f = c.p.resolveInlined(typ + "." + name)
 	}
 	if f == nil || len(f.Blocks) == 0 {
 		c.undecided("anchor/"+typ+"."+name, "-", "anchor method "+typ+"."+name+" resolves", "method "+typ+"."+name+" not found in package zap (renamed or removed): the rule cannot locate its construct")
